@@ -11,7 +11,7 @@ for d in sorted(glob.glob('/verif/seeded/*')):
         r = runs[-1]
         rp = r.get('replay') or {}
         nfi = any('no-failing' in l for l in r.get('lines', []))
-        if r['exit'] == 0: res = 'exit 0 (missed)'
+        if r['exit'] == 0: res = 'exit 0 (unaffected)' if m.get('round') == 3 else 'exit 0 (missed)'
         elif rp.get('kind') == 'propfail': res = 'PROPFAIL `' + str(rp.get('input'))[:48].replace('|', '/') + '`'
         elif nfi: res = 'no-failing-input-found (' + str(rp.get('kind')) + ')'
         else: res = 'exit %s' % r['exit']
